@@ -16,11 +16,15 @@ fn space_for(tier: Tier) -> (Space, usize) {
     let mut s = Space::new();
     match tier {
         Tier::Quick => {
-            s.ast("K", 5, 64).ast("U", 3, 64);
+            s.ast("K", 5, 64).ast("U", 3, 64).ast("GCM", 4, 64).ast("GCE", 3, 64);
+            s.ast_range("LP", 1, 3, 32, 5);
+            s.ast_range("ALT", 1, 3, 32, 4);
             (s, 3)
         }
         Tier::Thorough => {
-            s.ast("K", 5, 64).ast("U", 5, 64).ast("CL", 4, 64).ast("GC", 5, 64);
+            s.ast("K", 5, 64).ast("U", 5, 64).ast("CL", 4, 64).ast("GC", 5, 64).ast("GCM", 5, 64).ast("GCE", 4, 64);
+            s.ast_range("LP", 1, 4, 32, 6);
+            s.ast_range("ALT", 1, 4, 32, 4);
             (s, 4)
         }
     }
@@ -56,6 +60,7 @@ impl Check for C02 {
             space::SegKind::Ast { scope, .. } => crate::gen::scope(scope).sigma,
             _ => unreachable!(),
         };
+        let maxlen = if seg.param > 0 { seg.param } else { maxlen };
         let inputs = all_strings(&sigma, maxlen);
         let inputs_c: Vec<Vec<char>> = inputs.iter().map(|s| s.chars().collect()).collect();
         space::for_each_text(seg, lo, hi, &mut |_i, text| {
